@@ -180,6 +180,9 @@ use simple_mermaid::mermaid;
 mod macros;
 mod region_local;
 mod region_local_ext;
+#[cfg(folo_verif)]
+#[doc(hidden)]
+pub mod verif;
 
 pub use region_local::*;
 pub use region_local_ext::*;
